@@ -480,6 +480,7 @@ pub fn replay_case(prop: &'static str, case: &Value) -> Option<Vec<Violation>> {
         "hashorder" => return crate::hashorder::replay(case),
         "spell" => return crate::engine_b::replay(prop, monitors_for(prop), case),
         "history" => return crate::hist::replay(prop, case),
+        "after-history" => return crate::hist::replay_after(prop, case, &|c| replay_case(prop, c)),
         "history-hold" => return crate::hist::replay_hold(prop, case),
         "pool-pair" => return crate::pools::replay_pair(case),
         "transcript" => {
@@ -654,7 +655,8 @@ impl Check {
     pub fn scalar_position_stage(&mut self, ascii_only: bool) {
         let se = StringEval { prop: self.prop, mon: monitors_for(self.prop) };
         let t0 = Instant::now();
-        let frames: [(&str, &str); 6] = [("pkg:t/", "/n"), ("pkg:t/x", ""), ("pkg:t/n@1", ""), ("pkg:t/n?k=v", ""), ("pkg:t/n#s/", "/t"), ("pkg:nuget/A", "")];
+        // (component positions, and the positions where only a few ASCII characters are legal: type and qualifier key)
+        let frames: [(&str, &str); 11] = [("pkg:t/", "/n"), ("pkg:t/x", ""), ("pkg:t/n@1", ""), ("pkg:t/n?k=v", ""), ("pkg:t/n#s/", "/t"), ("pkg:nuget/A", ""), ("pkg:", "/n"), ("pkg:t", "x/n"), ("pkg:t/n?", "=v"), ("pkg:t/n?k", "z=v"), ("pkg:t/n?checksum=", ":00")];
         let mut a = sweeps::for_all_scalars(|c, acc| {
             if ascii_only && !c.is_ascii() {
                 return;
@@ -779,6 +781,6 @@ impl Check {
             transitions: self.transitions,
             traces_validated: self.traces,
         };
-        finish(rep, self.total, self.started, &|case| replay_case(prop, case))
+        finish(rep, self.total, self.started, &|case| replay_case(prop, case), &|case| crate::hist::context_search(prop, case, &|c| replay_case(prop, c)))
     }
 }
